@@ -790,6 +790,33 @@ def identity_flag_rule(repo, rep, modname):
         rep.undecided('R-TYPE', 'R-TYPE::%s::identity-flags' % m.relpath, '%s:1' % m.relpath, 'no call site passes an identity-tested flag')
 
 
+
+def unclamped_root_rule(repo, rep, mod, q, what):
+    """sibling of the boundary rule for functions the straight-line interpreter cannot run (matrix products): a variance obtained by rotating a
+    covariance is zero for a singular input and may come out as -2e-20; every root in `q` taken of such a matrix element (`m[i, j] ** 0.5`,
+    `sqrt(m[i, j])`) must be clamped at zero, as error_ellipse does.  Structural."""
+    f = repo.func(mod, q)
+    key = 'R-DOMAIN::%s::%s::root-of-a-rotated-variance' % (f.module.relpath, q)
+    roots = []
+    for n in ast.walk(f.node):
+        arg = None
+        if isinstance(n, ast.BinOp) and isinstance(n.op, ast.Pow) and isinstance(n.right, ast.Constant) and n.right.value == 0.5:
+            arg = n.left
+        if isinstance(n, ast.Call) and (getattr(n.func, 'id', '') == 'sqrt' or getattr(n.func, 'attr', '') == 'sqrt') and n.args:
+            arg = n.args[0]
+        if arg is not None:
+            roots.append((n, arg))
+    bad = [(n, a) for n, a in roots if isinstance(a, ast.Subscript)]
+    if not roots:
+        rep.holds('R-DOMAIN', key, where(f, f.node), '%s takes no root itself' % q)
+    elif not bad:
+        rep.holds('R-DOMAIN', key, where(f, roots[0][0]), 'every root of a matrix element in %s is taken of a clamped value' % q)
+    for n, a in bad[:2]:
+        rep.violated('R-DOMAIN', key, where(f, n), '`%s`: the element is a variance obtained by rotating the covariances; for a singular input (%s) it is zero in exact arithmetic and '
+                     '-2e-20 in doubles, and the root is nan (relative_error(30, 10, horizontal-only covariance, 0, 0) returns an up error of nan)' % (stmt_text(n)[:50], what),
+                     expected='max(%s, 0) ** 0.5' % stmt_text(a)[:30], actual=stmt_text(n)[:60])
+
+
 def tm_division_rules(repo, rep):
     """division rule for the projection routines (geo2grid, grid2geo, psfandgridconv) over the band of the projection, equator and central
     meridian included"""
